@@ -65,6 +65,18 @@ def load_known():
     return json.load(open(p)).get("findings", [])
 
 
+def _in_baseline(name, contract, baseline):
+    """was this obligation discharged on the reference tree?  By name - or, for `noraise.<Class>`, by clause: the contract's
+    allowed-exception set was discharged there (no path let that class escape), so a path that now does is the same clause
+    failing, although the reference tree generated no obligation of that name."""
+    names = baseline.get("prove", [])
+    if name in names:
+        return True
+    if "/noraise." in name and any(n.startswith(contract + "/") for n in names):
+        return True
+    return False
+
+
 def load_baseline():
     p = os.path.join(VERIF, "baseline", "obligations.json")
     if not os.path.exists(p):
@@ -262,7 +274,7 @@ def conclude(a, cfg, tier, seed, results, native, t0):
                 violations.append({"kind": "obligation", "name": o["name"], "mode": r["mode"], "model": o.get("model"),
                                    "contract": r["contract"], "note": o.get("note", ""), "line": o.get("line", 0),
                                    "solver": "%s: sat (%s, %.0f ms)" % (o["name"], o.get("backend"), o.get("ms", 0)),
-                                   "in_baseline": o["name"] in baseline.get("prove", [])})
+                                   "in_baseline": _in_baseline(o["name"], r["contract"], baseline)})
             elif o["status"] == "undecided" and mode == "prove":
                 undecided.append({"contract": r["contract"], "obligation": o["name"],
                                   "reason": o.get("reason") or "solver: unknown"})
@@ -277,6 +289,8 @@ def conclude(a, cfg, tier, seed, results, native, t0):
         if c is not None and c.model_to_inputs is not None and c.native is not None and v.get("model"):
             try:
                 inputs = c.model_to_inputs(v["model"])
+                if inputs is None:
+                    raise LookupError("this model has no concrete counterpart the replay driver can build")
                 nmod, nfn = c.native
                 sel = getattr(c, "replay_select", None)
                 if sel is not None:
@@ -430,8 +444,14 @@ def conclude(a, cfg, tier, seed, results, native, t0):
         nonbase = [v for v in unconfirmed if not v["in_baseline"]]
         if nonbase and not base_unconf and not a.update_baseline:
             for v in nonbase[:5]:
-                faults.append("obligation %s refuted (%s) but it is not in the baseline and the model does not replay: "
-                              "contract/encoding problem" % (v["name"], v["mode"]))
+                if os.environ.get("VERIF_REPO"):
+                    # a changed tree: an obligation the reference tree did not have (a new call site, a new loop) is refuted
+                    # and no input replays - neither a verdict nor a fault of the checker
+                    undecided.append({"contract": v["contract"], "obligation": v["name"],
+                                      "reason": "refuted (%s), but the reference tree has no such obligation and no input replays" % v["mode"]})
+                else:
+                    faults.append("obligation %s refuted (%s) but it is not in the baseline and the model does not replay: "
+                                  "contract/encoding problem" % (v["name"], v["mode"]))
     if lines:
         exit_code = 1
     elif faults:
